@@ -126,6 +126,33 @@ def channelFault (beadsTableGiven : Bool) (u : List Char) (m : MefFacts) : Optio
     else none
   | _ => none
 
+/-- the checks made for a channel reported in MEF, in source order: (fault raised, condition under which it is raised) -/
+def mefChecks (beadsTableGiven : Bool) (m : MefFacts) : List (Fault × Bool) :=
+  [(.mefNotAvailable, !m.fxnAvailable), (.otherInstrument, beadsTableGiven && !m.sameInstrument),
+   (.noCurveForChannel, beadsTableGiven && !m.hasMefValues), (.amplificationType, beadsTableGiven && !m.ampMatches),
+   (.detectorVoltage, beadsTableGiven && !m.voltageMatches), (.noCurveForChannel, !m.hasMefValues)]
+
+/-- the `raise ExcelUIException` sites of `process_samples_table` in source order (the last one re-raises the gate's `ValueError` text) -/
+def sampleFaultSites : List Fault :=
+  [.fileNotFound, .tooFewEvents, .mefNotAvailable, .otherInstrument, .noCurveForChannel, .amplificationType, .detectorVoltage,
+   .noCurveForChannel, .unitsNotRecognized, .gateFraction]
+
+/-- leading text of the message each fault is reported with -/
+def faultMessage : Fault → String
+  | .fileNotFound => "file \"{}\" not found"
+  | .tooFewEvents => "number of events is lower than 400"
+  | .unitsNotRecognized => "units \"{}\" not recognized"
+  | .mefNotAvailable => "MEF transformation function not available"
+  | .otherInstrument => "Instruments for acquisition of beads and samples are not the same (beads {}'s instrument: {}, sample's instrument: {})"
+  | .amplificationType => "Amplification type for acquisition of beads and samples in channel {} are not the same (beads {}'s amplification: {}, sample's amplification: {})"
+  | .detectorVoltage => "Detector voltage for acquisition of beads and samples in channel {} are not the same (beads {}'s detector voltage: {}, sample's detector voltage: {})"
+  | .noCurveForChannel => "no standard curve for channel {}"
+  | .gateFraction => "str(ve)"
+  | .unequalMefCounts => "Must specify the same number of"
+
+/-- the `raise ExcelUIException` sites of `process_beads_table` in source order -/
+def beadsFaultSites : List Fault := [.fileNotFound, .tooFewEvents, .gateFraction, .unequalMefCounts]
+
 /-- the documented fault a sample row reports, if any (checks in the order of the source) -/
 def sampleRowFault (r : SampleRow) : Option Fault :=
   if !r.fileFound then some .fileNotFound
